@@ -6,6 +6,7 @@ import (
 	"fmt"
 	"math"
 	"strings"
+	"sync/atomic"
 
 	"github.com/koykov/dyntpl"
 	"github.com/koykov/inspector/testobj"
@@ -141,9 +142,38 @@ func numText(i int) ([]byte, bool) {
 	return o.Out, o.ErrClass() == "OK"
 }
 
+// escCtx hands out a new context, and every eighth time one that has left a bound tag through exit
+// (and run escape modifiers) before a Reset: escaping depends on the value alone, not on what the
+// context rendered before.
+var (
+	escCtxN     int64
+	escDirtyKey []string
+	escDirtyTpl = []string{`{% jsonquote %}"{%= x %}{% exit %}"{% endjsonquote %}`, `{% htmlescape %}<{%= x %}{% exit %}>{% endhtmlescape %}`,
+		`{% urlencode %}a b{%= x %}{% exit %}{% endurlencode %}`, `{%h= x %}{%q= x %}{%u= x %}{%J= x %}{%c= x %}{%a= x %}{% jsonquote %}{% for i := 0; i < 2; i++ %}{% exit %}{% endfor %}`}
+)
+
+func escCtx() (*dyntpl.Ctx, string) {
+	n := atomic.AddInt64(&escCtxN, 1)
+	if n%8 != 0 {
+		return dyntpl.NewCtx(), ""
+	}
+	if escDirtyKey == nil {
+		for _, t := range escDirtyTpl {
+			k, _ := tplKey(t, false)
+			escDirtyKey = append(escDirtyKey, k)
+		}
+	}
+	k := int(n/8) % len(escDirtyKey)
+	ctx := dyntpl.NewCtx()
+	ctx.SetStatic("x", `<"q" &'é>`)
+	_ = Render(escDirtyKey[k], ctx)
+	ctx.Reset()
+	return ctx, " [on a context that rendered " + escDirtyTpl[k] + " and was Reset]"
+}
+
 // renderForm renders one escape form on input s.
 func renderForm(f EscForm, carrier string, s []byte) (Obs, string) {
-	ctx := dyntpl.NewCtx()
+	ctx, note := escCtx()
 	var src string
 	keep := false
 	if f.Region != "" {
@@ -157,7 +187,7 @@ func renderForm(f EscForm, carrier string, s []byte) (Obs, string) {
 	if po.ErrClass() != "OK" {
 		return po, src
 	}
-	return Render(key, ctx), src
+	return Render(key, ctx), src + note
 }
 
 // sanitizeRaw makes random bytes usable as static template text: no tag or comment opener.
